@@ -8,7 +8,7 @@ BOUNDS = ('Samplers on gray8 views in exact-size heap objects, previous contents
           'integer-valued entries (scale in [-2,2], offset in [-3,3]): dst(x,y) == sample(src, transform(M,(x,y))) and, independently, == the source pixel the integer map selects or untouched.  '
           'resize_view to the same size (1x1..3x3, both samplers) == identity, every pixel.  matrix3x2<double> with integer-valued entries in [-4,4]: translate/scale factories and their compositions (all symbolic); '
           'associativity with one factor concrete (boundary + seeded matrices) and the other two symbolic, and fully symbolic for the linear part (thorough); transform(A*B,p) == transform(B,transform(A,p)) with '
-          'one factor concrete; inverse(m)*m == m*inverse(m) == identity and map-then-inverse returns the point for det in {+-1,+-2,+-4} (fully symbolic m: thorough; quick: leading entries concrete).')
+          'the left factor concrete; inverse(m)*m == m*inverse(m) == identity and map-then-inverse returns the point for det in {+-1,+-2,+-4} (fully symbolic m: thorough; quick: leading entries concrete).')
 OUTSIDE = ('bilinear_sampler with free (non-grid) float fractions in an interior four-pixel cell (no verdict in 600 s in the design probe) and the exact interpolated value for interior cells with both fractions non-zero '
            '(float sum of four products against the integer value: no verdict in 300 s); get_rotate / center_rotate and resample_subimage / resize_view with a rotation or to a different size (sin / cos are not modelled; '
            'resize_view to the same size only needs cos(-0), sin(-0)); scale_lanczos (sin); rounding-error bounds for non-integer matrices; associativity of the translation entries (e, f) with three fully symbolic '
@@ -34,7 +34,7 @@ def cell_queries(w, h, G, tier, ct='float'):
             interior = 0 <= x0 < w - 1 and 0 <= y0 < h - 1
             if not interior: out.append(bilinear(w, h, x0, y0, G, tier, ct=ct))
             else:
-                out.append(bilinear(w, h, x0, y0, G, tier, ct=ct, exact=0))
+                out.append(bilinear(w, h, x0, y0, G, tier, ct=ct, exact=0, to=300 if G <= 4 and ct == 'float' else 900))   # 1/16 grid: 187 s (kissat) in the design probe
                 out.append(bilinear(w, h, x0, y0, G, tier, kx=0, ct=ct)); out.append(bilinear(w, h, x0, y0, G, tier, ky=0, ct=ct))
     return out
 SAMPLERS = dict(nearest='gil::nearest_neighbor_sampler', bilinear='gil::bilinear_sampler')
@@ -98,8 +98,8 @@ def queries(tier, seed):
             if lab[-1] in 'abcd':
                 qs.append(matrix('assoc', Q_ if i == 0 else T_, [0] + m, '/A_%s' % mname(m), label=lab)) # left / right factor concrete: linear part
                 qs.append(matrix('assoc', Q_ if i == 1 else T_, [2] + m, '/C_%s' % mname(m), label=lab))
-        for (w, wn) in ((0, 'A'), (1, 'B')):
-            qs.append(matrix('compose_general', t, [w] + m, '/%s_%s' % (wn, mname(m)), label='left_factor_first'))
+        # the left factor concrete (the right factor concrete had no verdict in 300 s)
+        qs.append(matrix('compose_general', t, [0] + m, '/A_%s' % mname(m), label='left_factor_first'))
     for lab in E6[:4]: qs.append(matrix('assoc', T_, [-1, 0, 0, 0, 0, 0, 0], '/symbolic', label=lab, to=900))
     for lab in ('transform_formula', 'integer_point'): qs.append(matrix('compose_general', Q_, [-1, 0, 0, 0, 0, 0, 0], '/symbolic', label=lab))
     for di, det in enumerate((1, -1, 2, -2, 4, -4)):
